@@ -910,3 +910,19 @@ func (e *Engine) histStr(h []Event) string {
 	}
 	return strings.Join(r, "\n  ")
 }
+
+// RenderLocal renders a differential finding: the history of one local state followed by the mutant.
+func (e *Engine) RenderLocal(f Found) ReplayFile {
+	ls := e.lstate(int(f.State[0]))
+	rf := ReplayFile{Property: f.V.Prop, Config: e.Cfg.Name, Violation: f.V, Engine: "pmc"}
+	for _, ev := range ls.Hist {
+		switch ev.Kind {
+		case 'd':
+			rf.Events = append(rf.Events, e.msgEvent("deliver", ls.Node, ev.Msg))
+		case 't':
+			rf.Events = append(rf.Events, TraceEvent{Kind: "timeout", Node: ls.Node})
+		}
+	}
+	rf.Events = append(rf.Events, e.msgEvent("byz", ls.Node, int(f.State[1])))
+	return rf
+}
